@@ -1,5 +1,6 @@
 """ Module for VariantPeptideIdentifier """
 from __future__ import annotations
+import re
 from abc import ABC, abstractmethod
 from typing import Dict, List, TYPE_CHECKING, Set
 from moPepGen import VARIANT_PEPTIDE_SOURCE_DELIMITER
@@ -248,7 +249,8 @@ class BaseVariantPeptideIdentifier(VariantPeptideIdentifier):
     def is_alternative_splicing(self) -> bool:
         """ Whether this variant peptide has any alternative splicing events """
         alt_splice_types = ['SE', 'A5SS', 'A3SS', 'RI', 'MXE']
-        return any(any(y in x for y in alt_splice_types) for x in self.variant_ids)
+        return any(re.split('[_-]', x, maxsplit=1)[0] in alt_splice_types
+            for x in self.variant_ids)
 
 class CircRNAVariantPeptideIdentifier(VariantPeptideIdentifier):
     """ circRNA variant peptide identifier for output FASTA header """
